@@ -37,6 +37,9 @@ pub enum ErrKind {
     CompileBadJump,
     /// a ForEach / Repeat card whose own loop variable has an empty name
     CompileBadLoopVar,
+    /// the value stack runs full exactly while a closure captures a variable (the closure object
+    /// still fits, the copy made for registering the upvalue does not)
+    StackoverflowAtCapture,
 }
 
 #[derive(Clone, Debug, Serialize, Deserialize)]
@@ -235,7 +238,7 @@ fn gen_spec(rng: &mut Rng) -> PathSpec {
     let kind = *rng.pick(&[
         ErrKind::NativeFails, ErrKind::MissingNative, ErrKind::MissingVariable, ErrKind::WrongOperand, ErrKind::NotAFunction,
         ErrKind::OutOfMemory, ErrKind::Timeout, ErrKind::Stackoverflow, ErrKind::CallStackOverflow,
-        ErrKind::CompileEmptyVar, ErrKind::CompileBadJump, ErrKind::CompileBadLoopVar,
+        ErrKind::CompileEmptyVar, ErrKind::CompileBadJump, ErrKind::CompileBadLoopVar, ErrKind::StackoverflowAtCapture,
     ]);
     let nctx = rng.usize(4);
     let depth = rng.usize(6);
@@ -298,6 +301,11 @@ fn site_expr(kind: ErrKind) -> (Card, CardId) {
             let id = s.id;
             (s, id)
         }
+        ErrKind::StackoverflowAtCapture => {
+            let s = c(CardBody::Closure(Box::new(Function::default().with_card(Card::return_card(Card::read_var("capx"))))));
+            let id = s.id;
+            (s, id)
+        }
         ErrKind::CompileBadLoopVar => {
             // the loop card itself is to blame; its body is a comment, which cannot be
             let s = c(CardBody::ForEach(Box::new(cao_lang::compiler::ForEach {
@@ -329,7 +337,7 @@ pub fn build(spec: &PathSpec) -> Built {
         expr = wrap_value(*k, *p, expr, i);
     }
     // functions level0 = main ... level depth holds the site
-    let needs_mark = matches!(spec.kind, ErrKind::OutOfMemory | ErrKind::Timeout | ErrKind::Stackoverflow | ErrKind::CallStackOverflow);
+    let needs_mark = matches!(spec.kind, ErrKind::OutOfMemory | ErrKind::Timeout | ErrKind::Stackoverflow | ErrKind::CallStackOverflow | ErrKind::StackoverflowAtCapture);
     // the mark must come immediately before the site: only possible without contexts
     let mut chain: Vec<CardId> = vec![];
     let fname = |lvl: usize| -> String {
@@ -351,7 +359,7 @@ pub fn build(spec: &PathSpec) -> Built {
     let mut subs: Vec<Module> = vec![Module::default(), Module::default()];
     // bits 12.. of `nested` seed two more shape choices (old replay files: 0)
     // (not for the value-stack fault: the recursion test needs more stack than the site)
-    let recurse: usize = if spec.depth >= 1 && spec.contexts.is_empty() && spec.kind != ErrKind::Stackoverflow { ((spec.nested >> 13) & 3) as usize } else { 0 };
+    let recurse: usize = if spec.depth >= 1 && spec.contexts.is_empty() && !matches!(spec.kind, ErrKind::Stackoverflow | ErrKind::StackoverflowAtCapture) { ((spec.nested >> 13) & 3) as usize } else { 0 };
     let main_last = (spec.nested >> 12) & 1 == 1;
     let mut rec_call: Option<CardId> = None;
     for lvl in 0..=spec.depth {
@@ -366,7 +374,7 @@ pub fn build(spec: &PathSpec) -> Built {
             // bookkeeping, no error can ever be the body's
             // (the kinds whose fault is placed by sizing a stack get no loops / calls in front: those
             // would need more stack than the site and take the fault themselves)
-            let kinds = if matches!(spec.kind, ErrKind::Stackoverflow | ErrKind::CallStackOverflow) { 3 } else { 9 };
+            let kinds = if matches!(spec.kind, ErrKind::Stackoverflow | ErrKind::CallStackOverflow | ErrKind::StackoverflowAtCapture) { 3 } else { 9 };
             f.cards.push(match (lvl + j as usize + (spec.nested >> 8) as usize) % kinds {
                 0 => Card::set_var(format!("p{lvl}_{j}"), Card::string_card(format!("prefix {lvl} {j}"))),
                 1 => c(CardBody::Comment(format!("comment {lvl} {j}"))),
@@ -404,6 +412,10 @@ pub fn build(spec: &PathSpec) -> Built {
                     ],
                 ),
             ))));
+        }
+        if lvl == spec.depth && spec.kind == ErrKind::StackoverflowAtCapture {
+            // the variable the site's closure captures
+            f.cards.push(Card::set_var("capx", Card::scalar_int(1)));
         }
         if lvl == spec.depth {
             if needs_mark {
@@ -623,6 +635,9 @@ pub fn examine(spec: &PathSpec, ctx: Option<&mut CaseCtx>) -> Vec<(Json, String)
             ErrKind::Timeout => knobs.budget = mk.dispatches + 2,
             // capacity S holds S-1 values; at mark the stack held H values
             ErrKind::Stackoverflow => knobs.value_stack = mk.stack_height + 1,
+            // (mark's own argument is part of the height it reports) the closure object fits, the
+            // copy made for registering the upvalue does not
+            ErrKind::StackoverflowAtCapture => knobs.value_stack = mk.stack_height + 1,
             ErrKind::CallStackOverflow => knobs.call_stack = mk.call_depth,
             _ => {}
         }
@@ -689,7 +704,7 @@ pub fn examine(spec: &PathSpec, ctx: Option<&mut CaseCtx>) -> Vec<(Json, String)
         ErrKind::NotAFunction => "InvalidArgument",
         ErrKind::OutOfMemory => "OutOfMemory",
         ErrKind::Timeout => "Timeout",
-        ErrKind::Stackoverflow => "Stackoverflow",
+        ErrKind::Stackoverflow | ErrKind::StackoverflowAtCapture => "Stackoverflow",
         ErrKind::CallStackOverflow => "CallStackOverflow",
         _ => "",
     };
@@ -799,7 +814,7 @@ impl Check for C15 {
     fn run_case(&self, ctx: &mut CaseCtx) {
         let mut wr = ctx.rng("workload");
         let mut spec = gen_spec(&mut wr);
-        if matches!(spec.kind, ErrKind::OutOfMemory | ErrKind::Timeout | ErrKind::Stackoverflow | ErrKind::CallStackOverflow) {
+        if matches!(spec.kind, ErrKind::OutOfMemory | ErrKind::Timeout | ErrKind::Stackoverflow | ErrKind::CallStackOverflow | ErrKind::StackoverflowAtCapture) {
             // the fault is placed on the instruction right after `mark`: no cards in between
             spec.contexts.clear();
         }
